@@ -28,7 +28,7 @@ FLOOR = {"quick": 300, "thorough": 5000}
 REQUIRED_COUNTERS = ["runs", "stage_faults_fired", "line_failpoints_fired", "write_faults_fired", "fs_events_observed",
                      "snapshots_compared", "noforce_runs", "force_runs", "fault_free_runs", "line_failpoints_enumerated",
                      "postprocess_cli_runs", "postprocess_child_processes_traced", "postprocess_syscalls_parsed"]
-RULE = ("configurations = 4 layouts x existing tree {equal, different, partial, interrupted (no client.py), core edited, core partial} x force {off, on}; per configuration: fault-free run, "
+RULE = ("configurations = 4 layouts x existing tree {equal, different, partial, interrupted (no client.py), core edited, core partial, equal under namespace-package ancestors} x force {off, on}; per configuration: fault-free run, "
         "every stage x {entry, exit}, every k-th write failing with ENOSPC, and LINE failpoints at the statements executed by the fault-free "
         "run (quick: every 6th, thorough: all); case = (configuration, fault); non-trivial = the fault point fired (or, fault-free, >=1 fs event)")
 ASSUMPTIONS = ["in the fault-injection runs post-processing children (ruff) are not run, the stage is failed at entry; the fault-free "
@@ -106,6 +106,15 @@ def build_template(ctx: Ctx, layout: str, existing: str) -> tuple[Path, str, str
             f.write_text(f.read_text() + "\n# edited by hand\nEDITED = 1\n")
         if existing == "core_partial":
             (core_dir / "pagination.py").unlink()
+        if existing == "equal_namespace":
+            # the output matches, but the ancestor packages are namespace packages (PEP 420): no __init__.py above the
+            # output and core packages - creating one would be a write, and would hide the namespace's other portions
+            for dpath in (out_dir, core_dir):
+                cur = dpath.parent
+                while cur != root and str(cur).startswith(str(root)):
+                    if cur != out_dir and out_dir not in cur.parents:      # (an embedded core lives inside the output package)
+                        (cur / "__init__.py").unlink(missing_ok=True)
+                    cur = cur.parent
     return root, pkg, core
 
 
@@ -280,7 +289,7 @@ def one_run(ctx: Ctx, tmpl: Path, layout: str, existing: str, force: bool, fault
             rec.violation("containment:sentinel_changed", feats, case, f"{rel}: {before.get(rel)} -> {after.get(rel)}")
     # --- outcome oracle
     if fault["kind"] == "none":
-        want_ok = force or existing == "equal" or existing == "absent"
+        want_ok = force or existing in ("equal", "absent", "equal_namespace")
         if want_ok and outcome != "ok":
             rec.violation(f"outcome:fault_free_run_fails:{existing}", feats, case, outcome)
         if not want_ok and outcome == "ok":
@@ -427,7 +436,9 @@ def run_shard(ctx: Ctx) -> None:
     stages = Stages()
     lines = LinePoints(stages)
     fsmon.MON.install()
-    configs = [(l, e, f) for l in LAYOUTS for e in ("equal", "different", "partial", "interrupted", "core_edited", "core_partial") for f in (False, True)]
+    configs = [(l, e, f) for l in LAYOUTS for e in ("equal", "different", "partial", "interrupted", "core_edited", "core_partial", "equal_namespace") for f in (False, True)]
+    # (namespace-package ancestors exist only above a dotted package; the quick tier keeps the no-force half, where it matters)
+    configs = [c for c in configs if c[1] != "equal_namespace" or (c[0] != "embedded" and not (ctx.quick and c[2]))]
     mine = [c for i, c in enumerate(configs) if ctx.mine(i)]
     for layout, existing, force in mine:
         tmpl, pkg, core = build_template(ctx, layout, existing)
